@@ -275,7 +275,7 @@ def reference(installed, spec_list, lang):
 
 def bounded(sess: Session):
     import wn._db
-    cases, bad = 0, []
+    cases, bad, bad_remove = 0, [], []
     old = wn.config.data_directory
     specs = POOL + [f'{a} {b}' for a, b in itertools.product(POOL[:9], POOL[:11]) if a != b]
     if sess.tier == 'thorough':
@@ -302,6 +302,27 @@ def bounded(sess: Session):
                             (not raised and sorted(wobj) != sorted(want)):
                         bad.append({'installed_in_order': order, 'specifier': spec, 'lang': lang, 'got': got,
                                     'want': want, 'Wordnet_raised': raised})
+            # wn.remove(specifier) removes exactly what the specifier selects (evaluated before anything is deleted)
+            multi = ['foo foo', 'foo:2.0-rc+1 foo', 'foo:1.0 foo', 'foo:* foo', 'foobar foo bar'] + \
+                [sp for sp in specs if ' ' in sp][:: 7 if sess.tier != 'thorough' else 1]
+            files = {f'{lid}:{ver}': os.path.join(tmp, f'l{k}.xml') for k, (lid, ver, lang) in enumerate(order)}
+            for spec in multi:
+                before = [l.specifier() for l in wn.lexicons()]
+                try:
+                    want = [l.specifier() for l in wn.lexicons(lexicon=spec)]
+                except wn.Error:
+                    continue
+                if not want:
+                    continue
+                cases += 1
+                wn.remove(spec, progress_handler=None)
+                after = [l.specifier() for l in wn.lexicons()]
+                removed = sorted(set(before) - set(after))
+                if removed != sorted(want):
+                    bad_remove.append({'installed': before, 'specifier': spec, 'selected': sorted(want),
+                                       'removed': removed})
+                for sp_ in removed:                     # restore (same order is not needed for the next case)
+                    wn.add(files[sp_], progress_handler=None)
             for c in list(wn._db.pool.values()):
                 c.close()
             wn._db.pool.clear()
@@ -309,6 +330,10 @@ def bounded(sess: Session):
             shutil.rmtree(tmp, ignore_errors=True)
     finally:
         wn.config.data_directory = old
+    if bad_remove:
+        sess.violation_direct('wn._add.remove:selection', 'wn.remove(specifier) removed lexicons other than those the '
+                              'specifier selects', {'witness': bad_remove[0], 'failing_cases': len(bad_remove)}, True,
+                              functions=('wn._add.remove', 'wn._queries.find_lexicons'))
     sess.add_bounded('wn.lexicons / wn.Wordnet (specifier selection end to end, GLOB semantics)',
                      f'2 installation orders of 4 lexicons (prefix ids, 2 versions, dotted/plus/hyphen versions, 2 '
                      f'languages) x {len(specs)} specifier strings x 4 lang values', cases,
